@@ -248,6 +248,7 @@ def c02(tier):
                 if lose and ns < 2:
                     continue
                 out.append(sdo_xfer_inst(3, 6, N, dom=dom, nseg=ns, lose=lose, fill=f))
+    out += sdo_two_servers(tier)
     return out
 
 
@@ -305,12 +306,67 @@ def c05(tier):
     return out
 
 
+def sdo_two_servers(tier):
+    out = []
+    for ph in range(5):
+        for t in ((6, 2, 9) if tier == 'quick' else (0, 2, 3, 6, 7, 8, 9)):
+            if ph == 4 and t == 5:
+                continue
+            defs = dict(NODE_DEFS)
+            defs.update({'PH': ph, 'TGT': t, 'FM': 0, 'CO_VERIF_SDO_BUF_SEG': 2, 'CO_SSDO_N': 2, 'OD_DOM_SIZE': 16})
+            out.append(Inst('sdo_step2_n2_ph%d_%s' % (ph, SDO_TGT[t]), 'sdo_step.c', defs, unwind=22, unwindset=node_unwind(2), objbits=10,
+                            harness_only=['PH', 'TGT', 'FM'], family='sdo_step',
+                            bounds='two SDO servers: one arbitrary frame for server 0 (phase %d, object %s) while server 1 is in an arbitrary state of any phase' % (ph, SDO_TGT[t])))
+    return out
+
+
+def c04(tier):
+    out = [i for i in sdo_step_insts(tier) if ('_ph0_' in i.name or '_ph1_' in i.name) and ('_n4_' in i.name or tier != 'quick')]
+    defs = dict(NODE_DEFS)
+    defs.update({'CO_VERIF_SDO_BUF_SEG': 2})
+    out.append(Inst('sdo_lookup', 'sdo_lookup.c', defs, unwind=90, unwindset=node_unwind(2), objbits=10, weight=20,
+                    bounds='template dictionary (%s entries), multiplexer 24-bit symbolic, R/W flag bits of every application entry symbolic, request direction symbolic, idle server state arbitrary' % 'about 40'))
+    defs2 = dict(defs)
+    defs2.update({'CO_SSDO_N': 2})
+    out.append(Inst('sdo_lookup_2srv', 'sdo_lookup.c', defs2, unwind=90, unwindset=node_unwind(2), objbits=10, weight=20,
+                    bounds='as sdo_lookup with two SDO servers configured'))
+    return out
+
+
+NMT_IN = ['nmtcmd', 'sdo', 'rpdo', 'sync', 'hb', 'lss', 'foreign', 'api', 'emcy', 'tpdo', 'hbdue']
+NMT_MODE = {1: 'init', 2: 'preop', 3: 'op', 4: 'stop'}
+
+
+def lss_unwind():
+    return {'COLssCheck': 30}
+
+
+def c09(tier):
+    out = []
+    for mode in (1, 2, 3, 4):
+        for k, nm in enumerate(NMT_IN):
+            defs = dict(NODE_DEFS)
+            defs.update({'MODE': mode, 'IN': k, 'CO_VERIF_SDO_BUF_SEG': 2})
+            uw = node_unwind(2)
+            uw.update(lss_unwind())
+            uw.update({'CONmtModeDecode': 7, 'COSyncInit': 4, 'COSyncHandler': 4, 'COSyncUpdate': 4, 'COSyncRx': 4, 'COTmrClear': 4,
+                       'CORPdoCheck': 4, 'CORPdoReset': 10, 'CORPdoWrite': 10, 'CORPdoGetMap': 10, 'COTPdoGetMap': 10, 'COTPdoTx': 10,
+                       'COTmrDelete': 6, 'COTmrInsert': 6, 'COTmrRemove': 6, 'COTmrProcess': 6, 'COTNmtHbConsInit': 4, 'CONmtHbConsActivate': 4,
+                       'CONmtHbConsCheck': 4, 'CONmtLastHbState': 4, 'COTEmcyHistInit': 6, 'COEmcyHistReset': 6, 'COEmcySend': 7})
+            out.append(Inst('nmt_step_%s_%s' % (NMT_MODE[mode], nm), 'nmt_step.c', defs, unwind=102 if k == 10 else 24, unwindset=uw, objbits=10,
+                            harness_only=['MODE', 'IN'], family='nmt_step',
+                            bounds='mode %s, input class %s with all data of the class symbolic (payload, dlc, cs/target, identifier)' % (NMT_MODE[mode], nm)))
+    return out
+
+
 def c01(tier):
-    return sdo_step_insts(tier)
+    return sdo_step_insts(tier) + sdo_two_servers(tier)
 
 
 PROPS = {
     'C01': c01,
+    'C09': c09,
+    'C04': c04,
     'C02': c02,
     'C03': c03,
     'C05': c05,
